@@ -233,7 +233,7 @@ theorem recover_too_few (hmac256 : Bytes → Bytes → Bytes) (kdf : Bytes → B
     (s0 : Share) (r : List Share) (pass : Bytes) (hk : s0.groupThreshold ≠ 1)
     (hlen : (s0 :: r).length < s0.groupThreshold) :
     ShareSet.recover hmac256 kdf (s0 :: r) pass = none := by
-  unfold ShareSet.recover
+  unfold ShareSet.recover recoverWith
   simp only
   split
   · rfl
